@@ -66,7 +66,7 @@ def notebook(E, shape, tag, edit=0, src=0, symbolic=True):
 
 
 CONFIGS = [dict(metadata=False), dict(outputs=False), dict(details=False, sources=False), dict(),
-           dict(identifier=False, details=False)]
+           dict(identifier=False, details=False), dict(identifier=False)]
 IGNORES = [{"/metadata": ["a"]}, {"/cells/*/outputs": True}, {"/metadata": False, "/cells/*/metadata": True}]
 
 
